@@ -887,6 +887,12 @@ func genCase(rng *rand.Rand) acase {
 	if c.Mode == "badtype" {
 		ids = append(ids, ident{"client", "lag", []string{"gauge", "", "Count", "timer"}[rng.Intn(4)], "ms"})
 	}
+	if rng.Intn(5) == 0 {
+		// two statistics that differ in their TYPE only (production has histograms with unit "count":
+		// batcher/batch_size, progress_tracker/ledger_size) - and one that differs in the unit only
+		ids = append(ids, ident{"batcher", "batch_size", "count", "count"}, ident{"batcher", "batch_size", "histogram", "count"},
+			ident{"batcher", "batch_size", "histogram", "bytes"})
+	}
 	used := []int64{}
 	genStat := func() *astat {
 		id := ids[rng.Intn(len(ids))]
